@@ -1608,18 +1608,9 @@ class VM:
         self, func: JSFunction, this_val: JSValue, args: List[JSValue]
     ) -> JSValue:
         """Internal method to call a function with explicit this and args."""
-        # Handle bound functions
-        if hasattr(func, "_bound_this"):
-            this_val = func._bound_this
-        if hasattr(func, "_bound_args"):
-            args = list(func._bound_args) + list(args)
-        if hasattr(func, "_original_func"):
-            func = func._original_func
-
-        # Use existing invoke mechanism
-        self._invoke_js_function(func, args, this_val)
-        result = self._execute()
-        return result
+        # Run the function to completion and hand its result back to the native caller
+        # (bound this/args are applied by _invoke_js_function)
+        return self._call_callback(func, args, this_val)
 
     def _make_regexp_method(self, re: JSRegExp, method: str) -> Any:
         """Create a bound RegExp method."""
